@@ -170,6 +170,7 @@ def gen_history(rng, mods):
             ops.append({"op": "import", "module": rng.choice(names)})
     if not any(o["op"] == "install" for o in ops):
         ops.insert(0, {"op": "install", "h": handles, "names": [rng.choice(hookable)], "checker": "spychk.A"})
+        handles += 1  # (a with-block added below must not reuse this handle id)
     if rng.random() < 0.4:
         # a with-block: install, import, leave, import again
         ops.append({"op": "with", "names": [rng.choice(hookable)], "checker": rng.choice(("spychk.A", "spychk.B")), "inside": [rng.choice(names)], "h": handles})
